@@ -139,7 +139,7 @@ def run(chk, model_ok=True):
             chk.violation("oracle", what, {"kind": "oracle", "lines": [line[:400000]], "expected": what})
 
     peers = sessions.default_peers()
-    n_scripts = 150 if quick else 5000
+    n_scripts = 375 if quick else 20000
     all_sess = []
     fault_hist = {}
     outcome_hist = {}
